@@ -418,7 +418,7 @@ def in_model_domain(case):
         return False
     if case.get("json_formatter") or any(a[0] in ("status", "json_formatter") for a in case.get("after") or []):
         return False
-    if case.get("body") is not None and (case.get("body_how") or "after") in ("app_iter2", "app_iter_gen"):
+    if case.get("body") is not None and (case.get("body_how") or "after") == "app_iter_gen":
         return False
     return True
 
@@ -440,8 +440,8 @@ def instance_literals(case):
     ocl = class_literal(case, e)
     tmpl = None if ocl is not None or case.get("tmpl") is None else cstr(case["tmpl"])
     explicit = None
-    if isinstance(e.app_iter, list) and e.has_body:
-        explicit = cstr(b"".join(e.app_iter))
+    if case.get("body") is not None and isinstance(e.app_iter, list):
+        explicit = cstr(b"".join(e.app_iter))       # the body the application supplied, as the instance holds it
     return copt(ocl), copt(tmpl), cstr(e.detail or ""), cstr(e.comment or ""), copt(explicit)
 
 
@@ -709,7 +709,7 @@ def rand_case(rng, names, want=None, wf_only=False, knobs=True, outside=False):
     case["accept"] = acc
     case["fmt"] = fmt
     if not cls.empty_body and rng.random() < 0.07:
-        case["body"] = rand_text(rng).encode("utf-8", "surrogatepass").hex() or "00"
+        case["body"] = "" if rng.random() < 0.25 else (rand_text(rng).encode("utf-8", "surrogatepass").hex() or "00")
     if knobs:
         decorate(rng, case, cls, outside)
     return case
@@ -1085,10 +1085,10 @@ def oracle_resp(case, cls, e, req, resp, check_made=True):
         return None
     if case.get("body") is not None:
         raw = bytes.fromhex(case["body"])
-        if raw != b"" or (case.get("body_how") in ("app_iter2", "app_iter_gen") and case["cls"] not in MOVE_NAMES()):
-            if body != raw:
-                return ("explicit-body:altered", "explicit body %r was sent as %r" % (raw, body[:200]))
-            return None
+        if body != raw:
+            key = "explicit-body:altered" if raw != b"" else "explicit-body:empty-body-replaced-by-generated"
+            return (key, "explicit body %r (given as %s) was sent as %r" % (raw, case.get("body_how") or "e.body =", body[:200]))
+        return None
     ctype = resp.content_type
     want = case.get("fmt")
     if want is not None and ctype != want:
@@ -1287,7 +1287,13 @@ def oracle_history(case):
             what = "body:" + str(fresh.content_type)
         elif canon_headers(resp, m) != canon_headers(fresh, m):
             what = "headers"
-        if what:
+        if what and case.get("body") == "" and what.startswith("body") and b"" in (resp.body, fresh.body):
+            # an empty supplied body: whether it is sent or replaced by a generated page flips with the instance's
+            # internal app_iter shape (e.g. after .body was read) - the same defect as on a fresh instance
+            bad.append(("explicit-body:empty-body-replaced-by-generated",
+                        "answer #%d of one instance sends %r for the supplied empty body, a new identical instance %r" % (
+                            i, resp.body[:120], fresh.body[:120])))
+        elif what:
             bad.append(("instance-reuse:%s-differs-from-fresh-instance" % what,
                         "answer #%d of one instance is (%r, %r, %r) but a new identical instance answers (%r, %r, %r)" % (
                             i, resp.status, canon_headers(resp, m), resp.body[:300], fresh.status, canon_headers(fresh, m),
@@ -1688,6 +1694,16 @@ def run(ctx):
                     res = oracle_case(c)
                     if res:
                         report(ctx, res, c, "knobs")
+    for nm in names:
+        if effective({"cls": nm})["empty"]:
+            continue
+        for raw in ("", "3c623e"):
+            for how in (["after"] if nm in MOVE_NAMES() else ["after", "kw_body", "kw_text", "app_iter", "app_iter2"]):
+                c = {"cls": nm, "detail": "<d>", "method": "GET", "accept": "text/html", "fmt": "text/html", "body": raw, "body_how": how}
+                cnt += 1
+                res = oracle_case(c)
+                if res:
+                    report(ctx, res, c, "knobs")
     for loc in ["/x\r\nSet-Cookie: a=b", "\n", "http://e/\r"]:
         for nm in MOVE_NAMES():
             for pos in (False, True):
